@@ -633,23 +633,35 @@ func c17h(c *Ctx) {
 	if as != nil {
 		ai := as.Info()
 		ok := false
-		for _, r := range as.Returns() {
-			be, isB := ast.Unparen(r.X.(*ast.ReturnStmt).Results[0]).(*ast.BinaryExpr)
-			if !isB || be.Op != token.LSS {
-				continue
-			}
-			call, isC := ast.Unparen(be.X).(*ast.CallExpr)
-			if !isC || !matchCallee(ai, call, Callee{"time", "", "Since"}) {
-				continue
-			}
-			recv := as.recvObj()
-			if !as.IsFieldPathOf(call.Args[0], func(o types.Object) bool { return o == recv }, "c", "NotAfterLimit") {
-				continue
-			}
-			if cst, isConst := ai.Uses[identOf(be.Y)].(*types.Const); isConst && cst.Name() == "ReadOnlyAfter" {
-				if v, okv := constantInt64(cst); okv && v == int64(7*24*3600*1e9) {
-					ok = true
+		recv := as.recvObj()
+		isSince := func(e ast.Expr) bool {
+			call, isC := ast.Unparen(e).(*ast.CallExpr)
+			return isC && matchCallee(ai, call, Callee{"time", "", "Since"}) && as.IsFieldPathOf(call.Args[0], func(o types.Object) bool { return o == recv }, "c", "NotAfterLimit")
+		}
+		isWeek := func(e ast.Expr) bool {
+			id := identOf(e)
+			if id == nil {
+				if se, isS := ast.Unparen(e).(*ast.SelectorExpr); isS {
+					id = se.Sel
 				}
+			}
+			if id == nil {
+				return false
+			}
+			cst, isConst := ai.Uses[id].(*types.Const)
+			if !isConst || cst.Name() != "ReadOnlyAfter" {
+				return false
+			}
+			v, okv := constantInt64(cst)
+			return okv && v == int64(7*24*3600*1e9)
+		}
+		for _, r := range as.Returns() {
+			res := r.X.(*ast.ReturnStmt).Results
+			if len(res) != 1 {
+				continue
+			}
+			if rel, isCmp := cmpRel(Atom{res[0], true}, isSince, isWeek); isCmp && rel == relLT {
+				ok = true
 			}
 		}
 		if ok {
